@@ -10,7 +10,7 @@ for k in $list; do
   chk=$(python3 -c "import json;print(json.load(open('$d/meta.json'))['check_run']['check'])")
   det=$(python3 -c "import json;print(json.load(open('$d/meta.json'))['detected'])")
   [ "$det" = "superseded" ] && { echo "$k superseded (patch no longer applies after a repair of /repo)"; continue; }
-  git -C /repo apply $d/patch.diff || { echo "$k APPLY-FAILED"; git -C /repo checkout -- . ; continue; }
+  git -C /repo apply /verif/$d/patch.diff || { echo "$k APPLY-FAILED"; git -C /repo checkout -- . ; continue; }
   out=$(./check $chk --no-evidence 2>&1); e=$?
   git -C /repo checkout -- . ; git -C /repo clean -fdq
   rm -rf replays/$chk/found
